@@ -8,6 +8,8 @@ from dataclasses import dataclass, field
 @dataclass
 class LoopSpec:
     inv: dict = field(default_factory=dict)      # clause name -> expr text
+    inherited: dict = field(default_factory=dict)  # view contracts: invariant clauses of the main view (assumed, proved there)
+    inherited_frame: list = field(default_factory=list)
     index: str = '_i'                              # ghost index for loops over sequences
     done: str = '_done'                            # ghost processed-subset for loops over sets/dicts
     frame: list = field(default_factory=list)      # invariant clauses that are frame equalities on havoced state: assumed with representation
@@ -47,6 +49,9 @@ class Contract:
     e1: bool = True                                # False: run-time contract only (tier B function, bounded stand-in)
     runtime: bool = True                           # checked by the E2 wrappers
     gen: str | None = None                         # name of the E2 input generator
+    view_of: str | None = None                     # this contract is a second view of the function already contracted under that key: same preconditions
+                                                   # (checked), the main view's loop invariants and cut facts are inherited as assumptions and its no-raise /
+                                                   # call-pre / frame obligations are not generated again (they are discharged there)
     fuzz_via: list = field(default_factory=list)   # no run-time contract of its own: an undischarged obligation is searched through these callers' contracts
     heap: bool = False                             # heap mode: the block dictionaries of region sub-graphs are state ('$heap' in modifies when written)
     card_mono: list = field(default_factory=list)  # obligation clauses/sites that get monotonicity of card under inclusion (strict for proper inclusion)
